@@ -2,7 +2,8 @@
     Only statements, closed by [exact], with their assumptions printed and pinned. *)
 From DL Require Import Lib.Bytes Model.StringLit Proof.StringLitBasics Proof.StringLitFacts
   Proof.StringLitSegment.
-From DL Require Import Lib.F64 Lua.Syntax Model.NumberLit Model.NumberWrite Proof.NumberWrite.
+From DL Require Import Lib.F64 Lua.Syntax Model.NumberLit Model.NumberWrite Model.NumberValue Proof.NumberWrite Proof.NumberWriteValue.
+From Coq Require Import Floats.SpecFloat.
 Open Scope N_scope.
 
 (** Every byte string, in whatever quoting form [write_string] picks (single, double,
@@ -114,6 +115,50 @@ Print Assumptions C13_write_dec_int_reads_value.
 Check C13_write_dec_int_reads_value : forall neg m, m < 2 ^ 53 ->
   exists bits, from_str (write_dec_int neg m) = Some (NDec bits None) /\
                of_bits bits = (if neg then fneg (of_N m) else of_N m).
+
+(** The per-run oracle itself ([Model/NumberValue.v]: [value_kept n t] = the text [t] is one of the
+    three non-finite spellings or a Lua numeral that darklua's reader gives the value of [n]) holds of
+    every text the modelled writer arms produce: hexadecimal and binary nodes over the whole [u64] /
+    [u32] range, the non-finite values whatever exponent they record, and integer-valued decimal nodes
+    of either sign below 2^53 (the negative zero included).  For these arms the per-run comparison of
+    the code's bytes with the model's bytes is all that ties the property to the code. *)
+Theorem C13_write_hex_value_kept : forall v u e, v < 2 ^ 64 ->
+  (forall ex up, e = Some (ex, up) -> ex < 2 ^ 32) ->
+  value_kept (NHex v u e) (write_hex v u e) = true.
+Proof. exact write_hex_value_kept. Qed.
+Print Assumptions C13_write_hex_value_kept.
+Check C13_write_hex_value_kept : forall v u e, v < 2 ^ 64 ->
+  (forall ex up, e = Some (ex, up) -> ex < 2 ^ 32) ->
+  value_kept (NHex v u e) (write_hex v u e) = true.
+
+Theorem C13_write_bin_value_kept : forall v u, v < 2 ^ 64 ->
+  value_kept (NBin v u) (write_bin v u) = true.
+Proof. exact write_bin_value_kept. Qed.
+Print Assumptions C13_write_bin_value_kept.
+Check C13_write_bin_value_kept : forall v u, v < 2 ^ 64 ->
+  value_kept (NBin v u) (write_bin v u) = true.
+
+Theorem C13_write_nonfinite_value_kept : forall bits ex t,
+  (of_bits bits = S754_nan \/ exists s, of_bits bits = S754_infinity s) ->
+  write_number_model (NDec bits ex) = Some t ->
+  value_kept (NDec bits ex) t = true.
+Proof. exact write_nonfinite_value_kept. Qed.
+Print Assumptions C13_write_nonfinite_value_kept.
+Check C13_write_nonfinite_value_kept : forall bits ex t,
+  (of_bits bits = S754_nan \/ exists s, of_bits bits = S754_infinity s) ->
+  write_number_model (NDec bits ex) = Some t ->
+  value_kept (NDec bits ex) t = true.
+
+Theorem C13_write_dec_int_value_kept : forall (neg : bool) m, m < 2 ^ 53 ->
+  write_number_model (NDec (to_bits (if neg then fneg (of_N m) else of_N m)) None)
+    = Some (write_dec_int neg m) /\
+  value_kept (NDec (to_bits (if neg then fneg (of_N m) else of_N m)) None) (write_dec_int neg m) = true.
+Proof. exact write_dec_int_value_kept. Qed.
+Print Assumptions C13_write_dec_int_value_kept.
+Check C13_write_dec_int_value_kept : forall (neg : bool) m, m < 2 ^ 53 ->
+  write_number_model (NDec (to_bits (if neg then fneg (of_N m) else of_N m)) None)
+    = Some (write_dec_int neg m) /\
+  value_kept (NDec (to_bits (if neg then fneg (of_N m) else of_N m)) None) (write_dec_int neg m) = true.
 
 Example C13_example_hex :
   write_hex 255 true (Some (4, false)) = of_string "0Xffp4" /\
